@@ -18,13 +18,44 @@ class Run:
     pass
 
 
-def symbolic_run(shape, time_budget=None):
+def symbolic_run(shape, time_budget=None, optimistic=None):
+    """One symbolic run of the harness.  With optimistic wrap analysis (default for pedigree shapes) the run assumes
+    that cost terms do not wrap around 2^32, records every such assumption with its program site, and afterwards
+    discharges them all in one query; sites whose assumption can fail are treated precisely in a re-run."""
     src = dp_harness.generate(shape)
     js = pipeline.harness_module(src)
     mod = irmod.Module(js)
-    it = Interp(mod, inputs_symbolic=True, time_budget=time_budget)
+    if optimistic is None:
+        optimistic = bool(shape.get("optimistic_wrap"))  # off by default: the justification query did not finish on trio shapes (DESIGN 9.7)
+    precise = set()
     t = time.time()
-    status = run_in_thread(lambda: it.run_harness())
+    passes = 0
+    while True:
+        passes += 1
+        it = Interp(mod, inputs_symbolic=True, time_budget=time_budget)
+        it.optimistic = optimistic
+        it.precise_sites = set(precise)
+        status = run_in_thread(lambda: it.run_harness())
+        if not optimistic or not it.assumed:
+            break
+        bad = z3.Or(*[z3.Or(e < lo, e > hi) for site, e, lo, hi in it.assumed])
+        res, model, dt = solve(bad, list(it.constraints), 600000)
+        it.stats["assumption_check_s"] = round(dt, 2)
+        it.stats["assumptions"] = len(it.assumed)
+        if res == "unsat":
+            break
+        if res == "unknown" or passes >= 4:
+            raise Unsupported("optimistic wrap analysis: assumptions could not be discharged (%s)" % res)
+        new = set()
+        for site, e, lo, hi in it.assumed:
+            v = model.eval(e, model_completion=True)
+            if z3.is_int_value(v) and not (lo <= v.as_long() <= hi):
+                new.add(site)
+        if not new:
+            raise Unsupported("optimistic wrap analysis: violated assumption not located")
+        precise |= new
+    it.stats["passes"] = passes
+    it.stats["precise_sites"] = len(precise)
     r = Run()
     r.shape, r.src, r.mod, r.it, r.status, r.interp_s = shape, src, mod, it, status, time.time() - t
     return r
